@@ -72,6 +72,7 @@ func rulesC11(c *Ctx, r *Report) {
 	rulesNewickParser(c, r)
 	rulesSamParser(c, r)
 	rulesSamWriter(c, r)
+	rulesFastaWriter(c, r)
 	rulesBedWriterLadder(c, r)
 	rulesMakeThenAppend(c, r, "formats/fasta", "formats/fastq", "formats/sam", "formats/bed", "formats/newick", "formats/smtext")
 	for _, rel := range []string{"formats/fasta", "formats/fastq", "formats/sam", "formats/bed", "formats/newick"} {
@@ -384,6 +385,8 @@ func rulesParseErrorContinues(c *Ctx, r *Report) {
 		r.analysed(y.f.name)
 		info := y.f.pkg.TypesInfo
 		n := 0
+		extraStreamFunc = c.isStreamFunc
+		defer func() { extraStreamFunc = nil }()
 		for _, s := range y.sites {
 			arg := y.errArg(s)
 			if arg == nil || isNilIdent(info, arg) {
@@ -392,7 +395,7 @@ func rulesParseErrorContinues(c *Ctx, r *Report) {
 			obj := identObj(info, arg)
 			fromParse := false
 			for _, rhs := range defsOf(y.f, obj) {
-				if fo := calleeOfExpr(info, rhs); fo != nil && fo.Pkg() == y.f.pkg.Types && fo.Type().(*types.Signature).Recv() == nil && fo.Type().(*types.Signature).Results().Len() == 2 && fo.Type().(*types.Signature).Params().Len() == 1 {
+				if fo := calleeOfExpr(info, rhs); fo != nil && !c.isStreamFunc(fo) && fo.Pkg() == y.f.pkg.Types && fo.Type().(*types.Signature).Recv() == nil && fo.Type().(*types.Signature).Results().Len() == 2 && fo.Type().(*types.Signature).Params().Len() == 1 {
 					fromParse = true
 				}
 			}
@@ -479,7 +482,7 @@ func rulesPassThroughErrors(c *Ctx, r *Report) {
 	e := &fdEngine{c: c, mode: fdStream, derived: map[*ssa.Function]bool{}}
 	n := 0
 	for _, f := range formatFuncs(c) {
-		if funcPkgPath(f) != modPath+"/formats/sam" || f.Synthetic != "range-over-func yield" {
+		if funcPkgPath(f) != modPath+"/formats/sam" || !isIterBody(f) {
 			continue
 		}
 		terms := e.terms(f)
